@@ -37,6 +37,46 @@ QTIMEOUT_MS = 10000
 MAX_DECISIONS = 4000
 
 
+class _Watchdog:
+    """z3's own `timeout` parameter is not always honoured inside non-linear preprocessing; a per-process watchdog thread
+    interrupts the context when a query overruns its deadline (the query then answers `unknown`)."""
+
+    def __init__(self):
+        self.deadline = None
+        self.ctx = None
+        self.thread = None
+        self.pid = None
+        self.fired = 0
+
+    def _loop(self):
+        while True:
+            time.sleep(0.25)
+            d = self.deadline
+            if d is not None and time.time() > d:
+                try:
+                    self.ctx.interrupt()
+                    self.fired += 1
+                except Exception:   # noqa
+                    pass
+                self.deadline = None
+
+    def arm(self, ctx, deadline):
+        import os
+        import threading
+        if self.thread is None or self.pid != os.getpid():
+            self.pid = os.getpid()
+            self.thread = threading.Thread(target=self._loop, daemon=True)
+            self.thread.start()
+        self.ctx = ctx
+        self.deadline = deadline
+
+    def disarm(self):
+        self.deadline = None
+
+
+_WATCHDOG = _Watchdog()
+
+
 def _is_nonfinite(x):
     return isinstance(x, float) and (x != x or x in (math.inf, -math.inf))
 
@@ -79,7 +119,11 @@ class Engine:
     def _check(self, *extra):
         t = time.time()
         self.queries += 1
-        r = self.solver.check(*extra)
+        _WATCHDOG.arm(self.solver.ctx, t + self.qtimeout_ms / 1000.0 * 1.5 + 2.0)
+        try:
+            r = self.solver.check(*extra)
+        finally:
+            _WATCHDOG.disarm()
         self.solver_s += time.time() - t
         if r == z3.unknown:
             self.unknowns += 1
@@ -621,6 +665,9 @@ def uf(name, arity=1):
     return _UFS[k]
 
 
+UF_FACTS = {('sin', 0): 0.0, ('cos', 0): 1.0, ('tan', 0): 0.0, ('exp', 0): 1.0, ('sinh', 0): 0.0, ('cosh', 0): 1.0, ('tanh', 0): 0.0, ('arctan', 0): 0.0,
+            ('arcsin', 0): 0.0, ('arcsinh', 0): 0.0, ('arctanh', 0): 0.0, ('log', 1): 0.0, ('log2', 1): 0.0, ('log10', 1): 0.0, ('expm1', 0): 0.0,
+            ('log1p', 0): 0.0, ('cbrt', 0): 0.0, ('exp2', 0): 1.0, ('arccosh', 1): 0.0, ('arccos', 1): 0.0}
 UF1_NAMES = ('sin cos tan exp sinh cosh tanh arctan arcsinh arccosh arcsin arccos arctanh log log2 log10 '
              'exp2 expm1 log1p cbrt').split()
 
@@ -753,6 +800,11 @@ class SymReal:
             oe = lift(oo)
         except TypeError:
             return NotImplemented
+        oe = z3.simplify(oe)
+        if z3.is_rational_value(oe):
+            v = _as_py(oe)
+            if v.denominator == 1 and abs(v.numerator) <= 16:
+                return self ** int(v.numerator)       # an exponent that is a literal integer after simplification (e.g. 1 + 0*t)
         return _pow_term(self.e, oe)
 
     def __rpow__(self, o):
@@ -912,6 +964,11 @@ class SymReal:
 
     def _uf1(name):
         def m(self):
+            e = z3.simplify(self.e)
+            if z3.is_rational_value(e):
+                v = _as_py(e)
+                if (name, v) in UF_FACTS:
+                    return UF_FACTS[(name, v)]       # exact values at 0 / 1 (true facts about the primitives, not assumptions)
             return SymReal(uf(name)(self.e))
         m.__name__ = name
         return m
